@@ -229,6 +229,17 @@ func runCase(cs poolsim.Case, coqWanted bool) (coqOut string, failOut *failure, 
 					if g := gone(in.Key, in.Cls); g != "" {
 						reason = "input-spent-or-uncreated"
 					}
+					// a revision is only valid while it is newer than the contract on the chain: a block
+					// of the path that revised the contract to the same or a higher number consumed it
+					if in.Role == 1 && in.Cls == 2 {
+						for _, li := range ledgers {
+							for id, fce := range li.L.FC {
+								if poolsim.Fc1Key(id) == in.Key && fce.FileContract.RevisionNumber >= in.Rev {
+									reason = "contract-revised-on-chain"
+								}
+							}
+						}
+					}
 				}
 			}
 			if reason == "" {
@@ -496,6 +507,9 @@ func run(c *hx.Ctx) {
 		doCase(rp.Replay.Case)
 		res.WriteCases("Run.Run_C05", cases)
 		return
+	}
+	for _, cs := range poolsim.Corpus("C05") {
+		doCase(cs)
 	}
 	for _, cs := range corpus(c.Seed) {
 		doCase(cs)
